@@ -349,6 +349,8 @@ def rule_blocking(ctx, rep):
 
 META["explanation"] += " " + 'Also (round 12 and fifth reading): return case table of pop (WOULDBLOCK only after a blocked wait or a lost cmpxchg, a node only from the winning attempt), LAST iff the new head is END; decision tables evaluate ordering comparisons (node addresses in [4096, 2^47)).'
 
+META["explanation"] += " " + 'Also (round 14): shared words are read with volatile / atomic loads in every API function; no pure / const attribute on the public prototypes.'
+
 RULES = [
     ("C11.proto", lambda c, r: __import__("sa.attrs", fromlist=["x"]).rule_nopure(c, r, "C11.proto", '^_*cds_(wfs|lfs)_', "stack", 15)),   # compiler-visible contract of the public prototypes: pure / const would let an optimised caller poll once
     ("C11.wfs", rule_wfs),
